@@ -463,6 +463,13 @@ class Interp(object):
                 self.ev('hash-nonxor', fn, at, op)
                 return Top('hash combined with %s' % op)
             if isinstance(a, BV) and isinstance(b, BV) and a.w == b.w:
+                if op == 'BitAnd':
+                    # other & lowest_set_bit(x) is lowest_set_bit(x) itself when other covers x bit by bit
+                    for fs, other in ((a, b), (b, a)):
+                        src = self.firstset_of.get(tuple(id(q) for q in fs.bits if q is not C0))
+                        if src is not None and src.w == other.w and \
+                                all(xj is C0 or B.band(oj, xj) is xj for oj, xj in zip(other.bits, src.bits)):
+                            return fs
                 f = {'BitAnd': B.band, 'BitOr': B.bor, 'BitXor': B.bxor}[op]
                 return BV([f(x, y) for x, y in zip(a.bits, b.bits)], a.signed)
             return Top('bitop on %s/%s' % (type(a).__name__, type(b).__name__))
@@ -1176,6 +1183,15 @@ class Interp(object):
                 return Struct(ty, (self.decode_bytes(raw, ti['variants'][0]['fields'][0]),))
         if ti['k'] == 'tuple' and not ti['of']:
             return UNIT
+        if ti['k'] == 'tuple' and ti.get('offs') is not None:
+            fields = []
+            for fty, off in zip(ti['of'], ti['offs']):
+                fti = self.tyinfo(fty) or {}
+                sz = fti['bits'] // 8 if fti.get('k') in ('int', 'char') else (1 if fti.get('k') == 'bool' else None)
+                if sz is None:
+                    return Top('bytes of ' + ty)
+                fields.append(self.decode_bytes(raw[off:off + sz], fty))
+            return Struct('tuple', tuple(fields))
         return Top('bytes of ' + ty)
 
     def const_val(self, st, fr, o):
